@@ -49,6 +49,20 @@ pub mod verif_hooks {
     pub fn rr_len(rr: &ResourceRecord<'_>) -> usize {
         rr.len()
     }
+
+    thread_local! {
+        static LAST_TABLE: std::cell::RefCell<Vec<(Vec<Vec<u8>>, usize)>> = std::cell::RefCell::new(Vec::new());
+    }
+
+    /// called by Packet::write_compressed_to with the compression table it ends up with: (labels of the suffix, offset)
+    pub(crate) fn record_compression_table(entries: Vec<(Vec<Vec<u8>>, usize)>) {
+        LAST_TABLE.with(|t| *t.borrow_mut() = entries);
+    }
+
+    /// the compression table of the last compressed write on this thread
+    pub fn take_compression_table() -> Vec<(Vec<Vec<u8>>, usize)> {
+        LAST_TABLE.with(|t| std::mem::take(&mut *t.borrow_mut()))
+    }
 }
 
 use bitflags::bitflags;
